@@ -60,6 +60,18 @@ var worldSeq int
 
 func init() { log.SetOutput(io.Discard) }
 
+// curScratch is the scratch root of the running process: error texts of the engine
+// carry absolute paths, which must not reach traces or violation keys (they differ
+// from process to process).
+var curScratch string
+
+func scrub(msg string) string {
+	if curScratch == "" {
+		return msg
+	}
+	return strings.ReplaceAll(msg, curScratch, "<scratch>")
+}
+
 // NewWorld creates the scratch directory and simulator objects (inside the bubble).
 func NewWorld(t *testing.T, c *sim.Case, res *sim.Result) *World {
 	worldSeq++
@@ -73,6 +85,7 @@ func NewWorld(t *testing.T, c *sim.Case, res *sim.Result) *World {
 	_ = os.RemoveAll(dir)
 	_ = os.MkdirAll(dir, 0o755)
 	w := &World{T: t, C: c, Res: res, Dir: dir}
+	curScratch = sim.Scratch()
 	w.FS = sim.NewSimFS(dir)
 	w.FS.Trace = res.Trace
 	return w
